@@ -45,7 +45,7 @@ RULE = (
     "shared objects, lock acquire/release, Variable get/set/delete, every fake-S3 call); the next runnable worker is "
     "taken from a Hypothesis-drawn choice list (sched_random) or from depth-first enumeration of the complete "
     "two-worker schedule tree of each set-up, split into 64 subtrees by the first 6 decisions (sched_dfs2; the quick "
-    "tier stops after 200 schedules per subtree, the thorough tier explores every schedule - class subtree_truncated "
+    "tier stops after 150 schedules per subtree, the thorough tier explores every schedule - class subtree_truncated "
     "must be 0 for the exhaustive flag to mean anything; 'schedules' in classes is the number of schedules run). "
     "Non-trivial schedule: >=2 workers executed a shared-state step before the first create_multipart_upload was "
     "executed; distinct = distinct (set-up, executed worker order). "
@@ -839,7 +839,7 @@ DFS_SETUPS_THOROUGH = DFS_SETUPS + [  # 61050, 482, 964 schedules
     {"mode": "cluster", "share": [0, 1], "writes": [2, 1], "fin": 1, "explicit_client": False},
     {"mode": "cluster", "share": [0, 1], "writes": [2, 2], "fin": 2, "explicit_client": True},
 ]
-DFS_LIMIT = {"quick": 200, "thorough": 10**7}
+DFS_LIMIT = {"quick": 150, "thorough": 10**7}
 
 
 def e_dfs(tier):
@@ -865,6 +865,8 @@ def o_dfs(case, T):
         if check_run(case, run, T):
             _classify(case, run, T)
         n += 1
+        if n > 1:
+            T.evaluations += 1  # every schedule is one execution of the oracle (the runner counted the first)
         T.cls("schedules")
         made, br = s.made, s.branch
         i = len(made) - 1
